@@ -877,6 +877,20 @@ def build_cases(rng, tier):
         cl.add("stacked", "regression:nonseekable-tail", b"N.N.", d, 0, parts=[2, 2])
         cl.add("load", "regression:nonseekable-empty", b"", d, 0)
         cl.add("seq", "regression:nonseekable-truncated", b"N.(lp0\nI1\naI2", d, 0)
+    # long stacks: later members start well past any internal buffer size (8 KiB, 64 KiB) of a reader that one
+    # StackedPickle.load keeps across its members (seeded C06 r6: a recording reader that releases what lies
+    # behind the current position)
+    import pickle as _pk
+    small = [_pk.dumps({"a": "a", "k": [i, "a", "a"]}, protocol=4) for i in range(3)]
+    big = _pk.dumps(list(range(4000)), protocol=2)
+    huge = _pk.dumps(["x" * 70000, "x" * 70000], protocol=4)
+    long_stacks = [[big] + small, [small[0]] * 400, [huge, small[1], big, small[2]]]
+    for parts in long_stacks:
+        body = b"".join(parts)
+        for d in NONSEEK + [SEEKABLE[0]]:
+            cl.add("stacked", f"long-stack:{len(parts)}", body, d, 0, parts=[len(p) for p in parts])
+        if len(parts) <= 6:              # mode "seq" follows at most MAX_SEQ successive loads
+            cl.add("seq", f"long-stack-seq:{len(parts)}", body, NONSEEK[0], 0, parts=[len(p) for p in parts])
     return cl.cases
 
 
